@@ -369,7 +369,7 @@ func Gen(prop, tier string, seed, run uint64) Plan {
 		at := r.IntN(1 + len(mutOps)/3)
 		mutOps = append(mutOps[:at], append(pre, mutOps[at:]...)...)
 	}
-	if prop == "C12" {
+	if prop == "C12" || prop == "C20" {
 		// settings and endpoints bookkeeping
 		for i := 0; i < 1+r.IntN(4); i++ {
 			switch r.IntN(5) {
